@@ -112,6 +112,15 @@ LeavesOf(fam) ==
                                 Obj(<<Prop("kind", LS("sq"), FALSE), Prop("y", TString, FALSE)>>, <<>>)>>),
                           Uni(<<Obj(<<Prop("kind", LS("hasOwnProperty"), FALSE), Prop("x", TNumber, FALSE)>>, <<>>),
                                 Obj(<<Prop("kind", Uni(<<LS("__proto__"), LS("valueOf")>>), FALSE), Prop("y", TString, TRUE)>>, <<>>)>>),
+                          \* discriminator values shared by two variants (a | b next to b | c) beside a third variant
+                          Uni(<<Obj(<<Prop("kind", Uni(<<LS("a"), LS("b")>>), FALSE), Prop("x", TString, FALSE)>>, <<>>),
+                                Obj(<<Prop("kind", Uni(<<LS("b"), LS("c")>>), FALSE), Prop("x", TString, FALSE)>>, <<>>),
+                                Obj(<<Prop("kind", LS("d"), FALSE), Prop("y", TString, FALSE)>>, <<>>)>>),
+                          \* named types whose names are members of Object.prototype (tables keyed by type names), used once and twice
+                          Obj(<<Prop("a", Ref("toString"), FALSE)>>, <<>>),
+                          Obj(<<Prop("a", Ref("__proto__"), FALSE), Prop("b", Arr(Ref("__proto__")), TRUE)>>, <<>>),
+                          \* an object intersected with a NAMED union of objects (not distributed by the compiler)
+                          Inter(<<Obj(<<Prop("a", TString, FALSE)>>, <<>>), Ref("Ush")>>), Inter(<<Ref("Ush"), Obj(<<Prop("a", TString, TRUE)>>, <<>>)>>),
                           \* three discriminator values that sanitize to one name part
                           Uni(<<Obj(<<Prop("kind", LS("u-c"), FALSE), Prop("x", TNumber, FALSE)>>, <<>>),
                                 Obj(<<Prop("kind", LS("u_c"), FALSE), Prop("y", TString, FALSE)>>, <<>>),
@@ -193,6 +202,9 @@ PresetEnv ==
                                                  Prop("meta", Obj(<<Prop("kind", Uni(<<LS("p"), LS("q")>>), FALSE)>>, <<>>), FALSE)>>, <<>>)],
     [n |-> "Mb",   kind |-> "type", ty |-> Obj(<<Prop("meta", Obj(<<Prop("kind", TString, FALSE)>>, <<>>), FALSE), Prop("z", TNumber, TRUE)>>, <<>>)],
     [n |-> "Ka",   kind |-> "type", ty |-> Obj(<<Prop("meta", Obj(<<Prop("kind", TString, FALSE)>>, <<>>), FALSE), Prop("w", TNumber, TRUE)>>, <<>>)],
+    [n |-> "toString",  kind |-> "type", ty |-> Obj(<<Prop("x", TString, FALSE)>>, <<>>)],
+    [n |-> "__proto__", kind |-> "type", ty |-> Obj(<<Prop("x", TString, FALSE)>>, <<>>)],
+    [n |-> "Ush",  kind |-> "type", ty |-> Uni(<<Obj(<<Prop("b", TString, FALSE)>>, <<>>), Obj(<<Prop("c", TString, FALSE)>>, <<>>)>>)],
     [n |-> "Kb",   kind |-> "type", ty |-> Obj(<<Prop("id", TString, FALSE),
                                                  Prop("meta", Obj(<<Prop("kind", Uni(<<LS("p"), LS("q")>>), FALSE)>>, <<>>), FALSE)>>, <<>>)] >>
   ELSE <<>>
